@@ -107,6 +107,9 @@ def main():
          lambda c, e, p: BeliefPropagationOSDDecoder(c, e, p, max_bp_iter=8, osd_order=0), 'BP-OSD'),
         ((1 / 3, 1 / 3, 1 / 3), None, {}, 0.2, [('RotatedPlanar2DCode', (2, 2)), ('Planar2DCode', (2, 2)), ('RotatedPlanar2DCode', (2, 3))],
          lambda c, e, p: MatchingDecoder(c, e, p), 'Matching'),
+        # a deformation that is not an X/Z swap (XY: Y<->Z) under noise with r_x = r_z != r_y
+        ((0.1, 0.8, 0.1), 'XY', {}, 0.25, [('Planar2DCode', (2, 2)), ('RotatedPlanar2DCode', (2, 3)), ('Toric2DCode', (2, 2))],
+         lambda c, e, p: MatchingDecoder(c, e, p), 'Matching'),
     ]
     if tier == 'thorough':
         cal_sets.append(((0.0, 0.0, 1.0), 'XZZX', {'deformation_axis': 'x'}, 0.3, [('Toric2DCode', (2, 2)), ('RotatedPlanar2DCode', (3, 3))],
